@@ -248,6 +248,7 @@ class Source:
         self.u = uniforms
         self.draws = draws
         self.passthrough = passthrough
+        self.unscripted = []      # entry points used although the case scripts nothing for them
         self.rand_calls = []      # (name, n requested, values answered)
         self.choice_calls = []    # dict(a, size, p, replace, answer)
 
@@ -267,7 +268,12 @@ class Source:
                 low, high = 0.0, 1.0
             shape = () if size is None else tuple(np.atleast_1d(size).astype(int).tolist())
             n = int(np.prod(shape)) if shape else 1
-            if self.passthrough:
+            if self.passthrough or self.u is None:
+                # (no uniforms scripted for this case - e.g. a multinomial draw implemented by inverse-CDF
+                #  sampling instead of numpy.random.choice: the real generator answers, the script-dependent
+                #  clauses become model mismatches, the input-independent ones are still judged)
+                if not self.passthrough:
+                    self.unscripted.append(name)
                 vals = np.asarray(real(*args, **kw), dtype=float).reshape(-1)
                 unit = (vals - low) / (high - low) if name == "uniform" else vals
             else:
@@ -283,7 +289,9 @@ class Source:
         real = self.saved["choice"]
 
         def f(a, size=None, replace=True, p=None, **kw):
-            if self.passthrough:
+            if self.passthrough or self.draws is None:
+                if not self.passthrough:
+                    self.unscripted.append("choice")
                 ans = real(a, size=size, replace=replace, p=p, **kw)
             else:
                 n = 1 if size is None else int(np.prod(size))
